@@ -479,7 +479,7 @@ def world_rule(model: Model, res, scope: Tuple[str, ...] = (), rule: str = "R-WO
     res.units["world_definitions_examined"] = n
     # ---- W9 the decorator that coerces the arguments of every public operation (shape rule in props/base_refs.py)
     if (model.pkg + ".utils.application") in model.modules and "float_param_formatter" in model.modules[model.pkg + ".utils.application"].funcs \
-            and not any(o.instance.startswith("float_param_formatter:") for o in res.obligations):
+            and not any(o.instance.startswith("float_param_formatter: one call") for o in res.obligations):
         from ..props.base_refs import param_formatter
         param_formatter(res, model)
     for k, where, func, construct, msg in refuse:
